@@ -24,7 +24,7 @@ def gen_config(rnd, max_jobs=14, max_depth=3, profile=None):
     """profile: dict of probabilities; missing keys take defaults"""
     p = dict(window=0.5, timeout=0.5, exc=0.35, crit=0.35, forever=0.2, never=0.15, nested=0.25,
              cdur=0.3, sdur=0.4, sd_never=0.08, edge=0.35, pure_root=0.25, job_cls=0.3, verbose=0.1,
-             yields=0.3, maxdur=5, root_timeout=0.4, sdto_none=0.15, tie=0.3, fine=0.15)
+             yields=0.3, maxdur=5, root_timeout=0.4, sdto_none=0.15, tie=0.3, fine=0.15, inspect=0.25)
     p.update(profile or {})
     # fine-grained schedules: completions separated by a few loop iterations inside one instant
     fine = rnd.random() < p["fine"]
@@ -102,6 +102,9 @@ def gen_config(rnd, max_jobs=14, max_depth=3, profile=None):
                     jobs[a]["reqs"].append(b)
             rnd.shuffle(jobs[a]["reqs"])
     cfg = {"jobs": jobs, "pure_root": pure_root}
+    if rnd.random() < p["inspect"]:
+        # a monitor calls the read-only inspection API of every scheduler at every quiescent point
+        cfg["inspect"] = True
     make_admissible(cfg, rnd)
     order = list(range(1, n))
     rnd.shuffle(order)
